@@ -272,6 +272,42 @@ func runC20(env *Env) {
 			rep.Violate("C20-duplicate", cs, "id repeated within the program run: "+dup)
 		}
 	}
+	// L: generators of different lifetimes. Each is made under a context of its own; the contexts of some have ended
+	// (their owner — a process instance, an engine — is gone) when the next ones are made. A generator whose context
+	// has ended still issues ids (its owner's last traces are being written), and what it issues must not be what a
+	// younger generator issues
+	for round := 0; round < 3 && !rep.Saturated(); round++ {
+		cs := fmt.Sprintf("6 generators made one after the other, the context of every other one ended before the next is made, then all drawn from together (round %d)", round)
+		env.Current(cs)
+		var gens []id.IGenerator
+		var cancels []context.CancelFunc
+		for k := 0; k < 6; k++ {
+			gctx, gcancel := context.WithCancel(context.Background())
+			g, err := id.GetSno().NewIdGenerator(gctx, tr)
+			must(err)
+			gens = append(gens, g)
+			cancels = append(cancels, gcancel)
+			for j := 0; j < 50; j++ {
+				g.New()
+			}
+			if k%2 == 0 {
+				gcancel()
+				time.Sleep(3 * time.Millisecond) // whatever watches the context has seen it end
+			}
+		}
+		all := c20Draw(gens, 1, dur/8, 1<<17)
+		for _, c := range cancels {
+			c()
+		}
+		total, dups, ex := c20Dups(all)
+		rep.Evaluations += total
+		rep.Nontrivial++
+		rep.Count("lifetimes")
+		rep.Distribution["lifetimes_ids"] += total
+		if dups > 0 {
+			rep.Violate("C20-duplicate", cs, fmt.Sprintf("%d duplicate ids among %d, e.g. %s", dups, total, ex))
+		}
+	}
 	// F (last: it uses up the program's pool of generator partitions): a long-running program has made more
 	// generators than there are partitions; the generators made after that (the engine falls back to its local
 	// generator when the default one cannot be had) are drawn from concurrently
